@@ -175,7 +175,7 @@ func checkC07Bad(c c07BadCase) verdict {
 }
 
 var c07Bad = newPart("C07", "invalid",
-	"rapid: invalid classes built from a valid encoding: (1) one interior run of 1..16 characters outside A-Za-z2-7= (ASCII punctuation, digits 0 1 8 9, Latin-1 and other non-ASCII letters incl. U+017F and U+0131 whose Unicode upper-case is ASCII; never white space), replacing or inserted; (2) alphabet text whose unpadded length is 1, 3 or 6 mod 8, bare or padded to a multiple of 8; (3) '=' inserted before a non-'=' character; (4) a valid spelling with one foreign byte (0x85, 0xA0, NUL, DEL, 0xFF, 0x1C, 0x1F) at its very start or end, also between the text and surrounding blanks; in any letter case, optionally surrounded by blanks; oracle: DecodeSecret, GenerateHOTP and ValidateTOTP return an error; every case non-trivial",
+	"rapid: invalid classes built from a valid encoding: (1) one interior run of 1..16 characters outside A-Za-z2-7= (ASCII punctuation, digits 0 1 8 9, Latin-1 and other non-ASCII letters incl. U+017F and U+0131 whose Unicode upper-case is ASCII; never white space), replacing or inserted; (2) alphabet text whose unpadded length is 1, 3 or 6 mod 8, bare or padded to a multiple of 8; (3) '=' inserted before a non-'=' character; (5) one symbol replaced by a byte that becomes it when a bit is masked, set or flipped (0x12 for '2', 0xC1 for 'A'); (6) a valid secret in display format, groups separated by dashes / dots / underscores / slashes; (4) a valid spelling with one foreign byte (0x85, 0xA0, NUL, DEL, 0xFF, 0x1C, 0x1F) at its very start or end, also between the text and surrounding blanks; in any letter case, optionally surrounded by blanks; oracle: DecodeSecret, GenerateHOTP and ValidateTOTP return an error; every case non-trivial",
 	checkC07Bad)
 
 var badChars = []string{"!", "\"", "#", "$", "%", "&", "'", "(", ")", "*", "+", ",", "-", ".", "/", ":", ";", "<", ">", "?", "@", "[", "\\", "]", "^", "_", "`", "{", "|", "}", "~",
@@ -192,7 +192,60 @@ func genC07Bad(t *rapid.T) c07BadCase {
 		return string(b)
 	}
 	var text, class string
-	switch rapid.IntRange(0, 4).Draw(t, "class") {
+	switch rapid.IntRange(0, 6).Draw(t, "class") {
+	case 6:
+		// a valid secret in "display format": groups of four separated by dashes (also dots, underscores, slashes) — characters
+		// outside the alphabet at regular places; blanks as separators are left out (interior white space is unclassified)
+		n := rapid.SampledFrom([]int{5, 10, 10, 15, 20, 20, 32, 64, 3, 7}).Draw(t, "n")
+		body := ref.B32(rapid.SliceOfN(rapid.Byte(), n, n).Draw(t, "key"))
+		sep := rapid.SampledFrom([]string{"-", "-", ".", "_", "/", "--"}).Draw(t, "sep")
+		g := rapid.SampledFrom([]int{4, 4, 4, 8, 5, 3}).Draw(t, "group")
+		var sb strings.Builder
+		for i := 0; i < len(body); i++ {
+			if i > 0 && i%g == 0 {
+				sb.WriteString(sep)
+			}
+			sb.WriteByte(body[i])
+		}
+		text = sb.String()
+		if !strings.Contains(text, sep) {
+			text = text[:len(text)/2] + sep + text[len(text)/2:]
+		}
+		if rapid.Bool().Draw(t, "lowerG") {
+			text = strings.ToLower(text)
+		}
+		return c07BadCase{Text: text, Class: "grouped-by-separators"}
+	case 5:
+		// ONE symbol of a valid text replaced by a byte that BECOMES that symbol when a bit is masked, set or flipped (0x12
+		// for '2' under |0x20, 0xC1 for 'A' under &0x7F, 0x01 for 'A' under |0x40 ...): the length stays admissible, the byte
+		// is outside the alphabet
+		n := rapid.IntRange(2, 40).Draw(t, "n")
+		body := []byte(ref.B32(rapid.SliceOfN(rapid.Byte(), n, n).Draw(t, "key")))
+		if rapid.Bool().Draw(t, "lowerB") {
+			body = []byte(strings.ToLower(string(body)))
+		}
+		pos := rapid.IntRange(0, len(body)-1).Draw(t, "pos")
+		var cands []byte
+		for _, m := range []byte{0x20, 0x40, 0x80, 0x10, 0x60} {
+			for _, v := range []byte{body[pos] ^ m, body[pos] &^ m, body[pos] | m} {
+				inAlpha := v >= 'A' && v <= 'Z' || v >= 'a' && v <= 'z' || v >= '2' && v <= '7' || v == '='
+				blank := v == ' ' || v == '\t' || v == '\n' || v == '\r' || v == '\v' || v == '\f'
+				if v != body[pos] && !inAlpha && !blank {
+					cands = append(cands, v)
+				}
+			}
+		}
+		if len(cands) == 0 {
+			cands = []byte{0x12}
+		}
+		body[pos] = cands[rapid.IntRange(0, len(cands)-1).Draw(t, "alias")]
+		text = string(body)
+		if rapid.Bool().Draw(t, "padIt") {
+			for len(text)%8 != 0 {
+				text += "="
+			}
+		}
+		return c07BadCase{Text: text, Class: "bit-alias-of-a-symbol"}
 	case 4:
 		// a valid spelling with ONE foreign byte at its very start or end (also between the text and surrounding blanks): bytes
 		// that some table or library calls white space when it reads bytes as Latin-1 code points (0x85 NEL, 0xA0 NBSP — as
